@@ -289,6 +289,7 @@ pub struct World {
     pub lenient: bool,
     /// every future handed to the subject is of a type without destructor
     pub untracked_futs: bool,
+    pub untracked_srcs: bool,
     pub active: bool,
     /// 0 collection, 1 merge, 2 adapter, 3 join_all, 4 try_join_all
     pub class: u8,
@@ -353,6 +354,7 @@ impl World {
             epoch: 0,
             lenient: false,
             untracked_futs: false,
+            untracked_srcs: false,
             active: false,
             class: 0,
         }
@@ -407,7 +409,7 @@ impl World {
             pushed_seq: 0,
             epoch: 0,
             panic_left: plan.panic_polls,
-            no_drop_glue: self.untracked_futs && role == Role::Fut,
+            no_drop_glue: (self.untracked_futs && role == Role::Fut) || (self.untracked_srcs && role == Role::Source),
         });
         id
     }
